@@ -122,6 +122,12 @@ func Accel(t *rapid.T, cfg Cfg) *ast.Node {
 	case 3: // fixed-distance string / char / sets
 		pre := ast.Seq()
 		n := rapid.IntRange(1, 3).Draw(t, "npre")
+		if s.cfg.Magic && rapid.IntRange(0, 3).Draw(t, "magicpre") == 0 {
+			// a long fixed-count set loop before the literal: the distance must survive the analysis' expansion limits
+			c := rapid.SampledFrom(magicCounts).Draw(t, "magiccount")
+			pre.Kids = append(pre.Kids, ast.Quant(s.smallSet(t), c, c, false))
+			n = rapid.IntRange(0, 1).Draw(t, "npre2")
+		}
 		for i := 0; i < n; i++ {
 			if rapid.Bool().Draw(t, "predot") {
 				pre.Kids = append(pre.Kids, ast.Dot())
@@ -178,6 +184,9 @@ func Accel(t *rapid.T, cfg Cfg) *ast.Node {
 				body.Kids = append(body.Kids, s.smallSet(t))
 			default:
 				c := rapid.IntRange(1, 3).Draw(t, "cnt")
+				if s.cfg.Magic && rapid.IntRange(0, 5).Draw(t, "magic") == 0 {
+					c = rapid.SampledFrom(magicCounts).Draw(t, "magiccount")
+				}
 				body.Kids = append(body.Kids, ast.Quant(s.smallSet(t), c, c, false))
 			}
 		}
@@ -197,6 +206,22 @@ func Accel(t *rapid.T, cfg Cfg) *ast.Node {
 		return ast.Seq(s.accStr(t, 4, 10), tail())
 	case 12: // optional prefix then literal
 		return ast.Seq(ast.Quant(s.accStr(t, 1, 2), 0, 1, false), s.accStr(t, 2, 4), tail())
+	case 14: // U+FFFD-centric: invalid bytes of a string input decode to this rune, raw-string searches see other bytes
+		seq := ast.Seq()
+		n := rapid.IntRange(1, 4).Draw(t, "nfffd")
+		for i := 0; i < n; i++ {
+			switch rapid.IntRange(0, 4).Draw(t, "fffdk") {
+			case 0:
+				seq.Kids = append(seq.Kids, ast.Dot())
+			case 1, 2:
+				seq.Kids = append(seq.Kids, ast.Lit(0xFFFD))
+			case 3:
+				seq.Kids = append(seq.Kids, ast.Lit(rapid.SampledFrom(accelLetters).Draw(t, "ch")))
+			default:
+				seq.Kids = append(seq.Kids, s.smallSet(t))
+			}
+		}
+		return seq
 	case 13: // group-wrapped leading things
 		return ast.Seq(ast.Group(ast.GCap, ast.Seq(s.accStr(t, 1, 3), tail())), tail())
 	default:
